@@ -50,7 +50,8 @@ def fns_calling(prog, callee_path, prefix="block_handler::"):
 def model_to_bytes(I_, st, call):
     """Packet::to_bytes as verified by C04: Ok(vector of some length) or Err(MessageError)"""
     s2 = st.copy()
-    n = I_.fresh(st, "len(encoded)", 4, (1 << 63) - 1, ("len", "encoded"))
+    recv = call.args[0].place if call.args and isinstance(call.args[0], RefV) else None
+    n = I_.fresh(st, "len(encoded)", 4, (1 << 63) - 1, ("len", "encoded", recv))
     dt = call.dest_ty
     ok = EnumV("core::result::Result", {0: StructV([VecV(Aff.sym(n), None, ("encoded",))])}, dt)
     er = EnumV("core::result::Result", {1: StructV([I_.mat(s2, dt[2][1] if dt and len(dt[2]) > 1 else None, "err")])}, dt)
@@ -70,6 +71,8 @@ class Trace:
             return
         I = new_interp(prog)
         self.I = I
+        negs = fns_calling(prog, "core::cmp::min")
+        self.neg_id = negs[0]["id"] if len(negs) == 1 else None
         I.type_invariants[BV] = bv_invariant
         I.no_join_bodies.add(self.body["id"])
         I.no_join_prefixes = ("block_handler::BlockHandler",)
@@ -167,6 +170,9 @@ class Trace:
                 r_ = call.args[1]
                 if isinstance(r_, StructV) and len(r_.fields) == 2 and isinstance(r_.fields[0], IntV):
                     s.ghost["splice_range"] = r_.fields[0].aff
+            elif tr.neg_id is not None and cbody is not None and cbody.get("id") == tr.neg_id:
+                tr.events.append(("negotiate", call.args, s.copy(), call.site))
+                s.ghost[("inj", "negotiated")] = True
             elif p == "core::cmp::min" and call.ctx.body["path"].startswith("block_handler::"):
                 tr.events.append(("min", call.args, s.copy(), call.site))
                 s.ghost["min_args"] = tuple(call.args)
